@@ -206,6 +206,17 @@ pub fn run_case(c: &Case, st: &mut Stats) -> Result<(), Failure> {
         }
     }
     let mut backspaces = 0;
+    // "the characters that survive": in a quarter of the cases the warm context presses the NUMBER-PAD key for every
+    // character that has one (digits . + - * / =) - another key code, the same character
+    let pad = c.mid_sel == 3 && target.chars().any(|ch| crate::driver::keys().numpad_code_for(ch).is_some());
+    if pad {
+        st.label("warm-context-uses-number-pad-keys");
+    }
+    let wk = |ch: char, sel: u8| {
+        let k = crate::driver::keys();
+        let code = if pad { k.numpad_code_for(ch).unwrap_or_else(|| k.code_for(ch)) } else { k.code_for(ch) };
+        warm.key(code, 0, sel)
+    };
     for (i, ch) in chars.iter().enumerate().take(n - 1) {
         let (junk, retype) = &c.script[i % c.script.len()];
         for j in junk.chars() {
@@ -218,11 +229,11 @@ pub fn run_case(c: &Case, st: &mut Stats) -> Result<(), Failure> {
         if i == 0 && !junk.is_empty() {
             // erasing everything ends the word; nothing else to do, the next key starts it again
         }
-        warm.ch(*ch, c.mid_sel).map_err(pf)?;
+        wk(*ch, c.mid_sel).map_err(pf)?;
         if *retype && i > 0 {
             warm.backspace(false).map_err(pf)?;
             backspaces += 1;
-            warm.ch(*ch, 0).map_err(pf)?;
+            wk(*ch, 0).map_err(pf)?;
         }
         interleave(&mut tick)?;
     }
@@ -237,7 +248,7 @@ pub fn run_case(c: &Case, st: &mut Stats) -> Result<(), Failure> {
             backspaces += 1;
         }
     }
-    let got = warm.ch(chars[n - 1], c.final_sel).map_err(pf)?;
+    let got = wk(chars[n - 1], c.final_sel).map_err(pf)?;
     if got != expect {
         return Err(fail(
             "history-dependent-suggestion",
@@ -502,7 +513,50 @@ fn long_lived_case(c: &Case, lo: &mut LongLived, st: &mut Stats) -> Result<(), F
     Ok(())
 }
 
+/// The statement's own scenario for the selection byte, with the final character typed on the number pad: word x final
+/// mark in {. - + * / =} x EVERY selection byte valid for the word's list; one context presses the number-pad key, a
+/// brand-new one the main-block key for the same character.
+fn final_key_on_the_number_pad(run: &Run) {
+    let words = ["cool", "a", "ami", "smile", "sesh", "onno", "kotha", "help", "boi", "k"];
+    let items: Vec<(usize, char)> = (0..words.len()).flat_map(|w| ".-+*/=1".chars().map(move |c| (w, c))).collect();
+    run.exhaustive(
+        "final-key-on-the-number-pad-x-every-selection-byte",
+        &items,
+        |_| Sandbox::new(),
+        |&(wi, mark), st, sb| {
+            let case = || json!({"final_key_on_number_pad": {"word": words[wi], "mark": mark.to_string()}});
+            let pf = |p: crate::driver::PanicInfo| Failure::new(panic_kind(&p), p.to_string(), case());
+            for opts in ["s", "sqe"] {
+                let (a, b) = (Ctx::new(Opts::parse(opts), sb).map_err(pf)?, Ctx::new(Opts::parse(opts), sb).map_err(pf)?);
+                let n = a.type_text(words[wi]).map_err(pf)?.map(|r| r.choices()).unwrap_or(0);
+                a.finish().map_err(pf)?;
+                let Some(pad) = crate::driver::keys().numpad_code_for(mark) else { continue };
+                for sel in 0..n.min(12) {
+                    a.type_text(words[wi]).map_err(pf)?;
+                    b.type_text(words[wi]).map_err(pf)?;
+                    let ra = a.key(pad, 0, sel as u8).map_err(pf)?;
+                    let rb = b.ch(mark, sel as u8).map_err(pf)?;
+                    a.finish().map_err(pf)?;
+                    b.finish().map_err(pf)?;
+                    st.evals(1);
+                    if ra != rb {
+                        return Err(Failure::new(
+                            "history-dependent-suggestion",
+                            format!("text {:?}{mark} ({opts}), selection byte {sel}: with the number-pad key {} but with the main-block key {}", words[wi], ra.short(), rb.short()),
+                            case(),
+                        ));
+                    }
+                }
+            }
+            st.label("final-key-on-the-number-pad");
+            st.nontrivial(hash_of(&("pad", wi, mark)), || json!({"word": words[wi], "final_mark_on_number_pad": mark.to_string()}));
+            Ok(())
+        },
+    );
+}
+
 pub fn run(run: &Run) {
+    final_key_on_the_number_pad(run);
     run.sharded("warm-vs-fresh", 16, run.tier.pick(350, 9000), 400, strategy, |_| (), |c: &Case, st, _| run_case(c, st));
     run.sharded("long-lived-context-vs-fresh", 16, run.tier.pick(450, 6000), 0, strategy, mk_long_lived, |c: &Case, st, lo| long_lived_case(c, lo, st));
     run.require_label("long-lived-context-reached-300-texts", 8);
@@ -515,6 +569,28 @@ pub fn run(run: &Run) {
 }
 
 pub fn replay(_run: &Run, case: &Value) -> Result<(), Failure> {
+    if let Some(f) = case.get("final_key_on_number_pad") {
+        let (word, mark) = (f["word"].as_str().unwrap_or("a"), f["mark"].as_str().and_then(|m| m.chars().next()).unwrap_or('.'));
+        let sb = Sandbox::new();
+        let pf = |p: crate::driver::PanicInfo| Failure::new(panic_kind(&p), p.to_string(), case.clone());
+        for opts in ["s", "sqe"] {
+            let (a, b) = (Ctx::new(Opts::parse(opts), &sb).map_err(pf)?, Ctx::new(Opts::parse(opts), &sb).map_err(pf)?);
+            let n = a.type_text(word).map_err(pf)?.map(|r| r.choices()).unwrap_or(0);
+            a.finish().map_err(pf)?;
+            let Some(pad) = crate::driver::keys().numpad_code_for(mark) else { continue };
+            for sel in 0..n.min(12) {
+                a.type_text(word).map_err(pf)?;
+                b.type_text(word).map_err(pf)?;
+                let (ra, rb) = (a.key(pad, 0, sel as u8).map_err(pf)?, b.ch(mark, sel as u8).map_err(pf)?);
+                a.finish().map_err(pf)?;
+                b.finish().map_err(pf)?;
+                if ra != rb {
+                    return Err(Failure::new("history-dependent-suggestion", format!("selection byte {sel}: number-pad key {} vs main-block key {}", ra.short(), rb.short()), case.clone()));
+                }
+            }
+        }
+        return Ok(());
+    }
     let c: Case = serde_json::from_value(case.clone()).map_err(|e| Failure::new("replay", format!("bad case: {e}"), case.clone()))?;
     run_case(&c, &mut Stats::new())
 }
